@@ -306,6 +306,9 @@ type Client interface {
 	AfterInline(x *Exec, st *State, fr *Frame, site ssa.CallInstruction, callee *ssa.Function, args []*Term, val *Term)
 	// OnStore is called for every store (after the memory update).
 	OnStore(x *Exec, st *State, fr *Frame, pos token.Pos, addr, val *Term)
+	// OnBackEdge is called for every path of a loop body that reaches the
+	// back edge, before per-iteration terms are renamed.
+	OnBackEdge(x *Exec, st *State, fr *Frame, cur *Term)
 }
 
 // Res is the outcome of simulating a function to one of its exits.
@@ -454,6 +457,10 @@ func (x *Exec) load(st *State, addr *Term, typ types.Type) *Term {
 		}
 	}
 	if r.Op == "alloc" {
+		if ep, ok := st.mem["epoch:"+r.key]; ok {
+			// the object was handed to an opaque callee: unknown content
+			return mk("init", "", typ, addr, ep.val)
+		}
 		if typ != nil {
 			return zeroOf(typ)
 		}
@@ -481,6 +488,21 @@ func (x *Exec) store(st *State, addr, val *Term, typ types.Type) {
 		}
 	}
 	st.mem[addr.key] = cell{addr, val}
+}
+
+// havoc forgets everything known about the object behind a pointer that is
+// passed to a callee the simulator does not look into.
+func (x *Exec) havoc(st *State, ptr *Term, site *Term) {
+	r := rootOf(ptr)
+	if r.Op != "alloc" {
+		return
+	}
+	for k, c := range st.mem {
+		if c.addr != nil && c.val != nil && c.val.Op != "mapabs" && !strings.HasPrefix(k, "epoch:") && rootOf(c.addr) == r {
+			delete(st.mem, k)
+		}
+	}
+	st.mem["epoch:"+r.key] = cell{r, site}
 }
 
 // ---------------------------------------------------------------------------
@@ -951,6 +973,7 @@ func (x *Exec) execLoop(fr *Frame, li *loopInfo, pred *ssa.BasicBlock, st *State
 		}
 		for _, o := range outs {
 			if o.kind == outBackEdge {
+				x.C.OnBackEdge(x, o.st, o.fr, cur)
 				pi := predIdx(o.from)
 				if pi >= 0 {
 					// a slice carried by a phi is updated like a stored cell
